@@ -199,6 +199,17 @@ theorem fc03a_old_rule_breaks :
   · intro hn; simp at hn
   · intro ce hce hm; simp at hce; subst hce; simp at hm
 
+/-- The same on a whole well-formed history through the chain-level model: with the pre-fix
+rule the history (create, flush, spend, re-create by a duplicate coinbase, spend) ends with the
+node reporting outpoint (1,0) unspent at height 1 although the fold says it is spent; with
+the fixed rule the model reports the fold (this is `reported_eq_fold`). The real code showed
+exactly this before commit 3cdcfc6d (corpus/C03/f_c03_a.txt). -/
+theorem fc03a_old_rule_breaks_history :
+    HistOk [] fcHist ∧ utxoOf [fcB1, fcB2, fcB3, fcB4] (1, 0) = none ∧
+    fcRunOld.map (fun s => abs s.cache s.db (1, 0)) = some (some ⟨50, [0x51], 1, true⟩) ∧
+    (run init fcHist).map (fun s => abs s.cache s.db (1, 0)) = some none := by
+  refine ⟨by decide, by decide, by decide, by decide⟩
+
 /-! ### non-vacuity -/
 
 /-- A well-formed history exists: connect, flush, connect a spend, detach both, re-attach. -/
